@@ -116,7 +116,22 @@ def gen(c, t, depth, nest=0):
     if depth <= 0:
         return leaf(c, t, nest)
     if t == "int":
-        ch = g.weighted([(2, "leaf"), (5, "bin"), (3, "call"), (1, "index"), (1, "len"), (2, "or"), (1, "paren")])
+        ch = g.weighted([(2, "leaf"), (5, "bin"), (3, "call"), (1, "index"), (2, "literal-indexed"), (1, "len"), (2, "or"), (1, "paren")])
+        if ch == "literal-indexed":
+            # a list / map LITERAL that is indexed or asked for its length on the spot: every element is evaluated, in order,
+            # whichever one is selected (a constant index is the only one the type checker takes behind a literal)
+            n = g.int(2, 4)
+            elems = [gen(c, "int", depth - 1, nest + 1) for _ in range(n)]
+            k = g.choice(["index", "index-nested", "len", "map-entry"])
+            g.label("literal-used-on-the-spot:" + k)
+            if k == "index":
+                return ("index", ("list", elems), I(g.int(0, n - 1)))
+            if k == "index-nested":
+                return ("index", ("index", ("list", [("list", elems), ("list", [gen(c, "int", depth - 1, nest + 1)])]), I(0)), I(g.int(0, n - 1)))
+            if k == "len":
+                return ("mcall", ("list", elems), "len", [])
+            keys = ["p", "q", "r", "s"][:n]
+            return ("or", ("index", ("map", "str", "int", [(S(kk), e) for kk, e in zip(keys, elems)]), S(g.choice(keys))), I(0 - 1))
         if ch == "leaf":
             return leaf(c, t, nest)
         if ch == "bin":
